@@ -21,7 +21,7 @@ func init() {
 
 var profC06 = Profile{
 	MaxBars: 8, MinBars: 2, MaxSteps: 45, Refresh: []string{"manual"}, QLens: []int{-1},
-	Pop: 35, Queue: 25, Prio: true, PrioExtreme: true, PrioOnFinished: true, Ext: 10, Rm: 20, NoPop: 20, AbortW: 2, TicksW: 12,
+	Pop: 35, Queue: 25, LateSuccW: 2, Prio: true, PrioExtreme: true, PrioOnFinished: true, Ext: 10, Rm: 20, NoPop: 20, AbortW: 2, TicksW: 12,
 	Fillers: []string{"tag", "bar"}, LateAdd: true, PrioMidRender: 25, AddTick: 10,
 }
 
